@@ -657,8 +657,11 @@ func (g *Gen) list(c bctx) *Block {
 		var it []*Block
 		if b.Tight {
 			var first *Block
-			tf := g.pick("tightfirst", 6)
+			tf := g.pick("tightfirst", 7)
 			if g.R.TightParaOnly {
+				tf = 5
+			}
+			if tf == 6 && (c.depth <= 1 || g.R.NoNestedInTight) {
 				tf = 5
 			}
 			switch tf {
@@ -666,6 +669,9 @@ func (g *Gen) list(c bctx) *Block {
 				first = g.leafBlock(4, bctx{cont: true}, nil) // ATX
 			case 1:
 				first = g.leafBlock(7, bctx{cont: true}, nil) // fenced
+			case 6:
+				// a quote as the first block of the item
+				first = &Block{K: Quote, Kids: g.blocks(bctx{depth: 0, cont: true}, 1+g.pick("ntq", 2))}
 			default:
 				first = g.leafBlock(0, bctx{cont: true}, nil)
 			}
@@ -712,14 +718,14 @@ func endsOpenPara(b *Block) bool {
 }
 
 // tightSequence extends the single block of a tight list item to a sequence of
-// up to three blocks written without blank lines between them. The next block
+// up to four blocks written without blank lines between them. The next block
 // is chosen so that it is recognised without a blank line: after a block whose
 // last line is paragraph text only blocks that can interrupt a paragraph
 // follow (ATX heading, fenced code, thematic break, block quote); a paragraph
 // only follows a block that is closed by its own last line.
 func (g *Gen) tightSequence(it []*Block, c bctx) []*Block {
-	n := g.pick("tightextra", 4) // 0: none (most common shapes keep a single block)
-	if n > 2 {
+	n := g.pick("tightextra", 6) // 0: none (most common shapes keep a single block)
+	if n > 3 {
 		n = 0
 	}
 	for i := 0; i < n; i++ {
